@@ -387,8 +387,10 @@ fn parse_check_line(mut line: &str) -> anyhow::Result<ParsedCheckLine> {
     let mut hex_chars = hash_hex.chars();
     let mut hash_bytes = [0; blake3::OUT_LEN];
     for byte in &mut hash_bytes {
-        let high_char = hex_chars.next().unwrap();
-        let low_char = hex_chars.next().unwrap();
+        // The length check above counts bytes, so a non-ASCII hash field can run out of chars.
+        let (Some(high_char), Some(low_char)) = (hex_chars.next(), hex_chars.next()) else {
+            bail!("Invalid hex");
+        };
         *byte = 16 * hex_half_byte(high_char)? + hex_half_byte(low_char)?;
     }
     let expected_hash: blake3::Hash = hash_bytes.into();
